@@ -104,7 +104,9 @@ CHECKS = {
         "injective on real values; small-motion theorem: if every end point's successor is strictly its nearest end point and lies inside some "
         "search radius (implied by the property's bounds), every end point is mapped to its successor whatever the numbering and processing "
         "order; the radii with the code's constants are 0.005..0.08 of the extent; forward-then-backward returns the start over any number "
-        "of frames. Per run: every step's mapping dictionary and multi-frame tracking queries compared exactly with the model on the coordinates "
+        "of frames. Numbering (Props/C12relabel.lean): create_mapping run on renumbered frames builds the renumbered map (createMapping_mapV), and under "
+        "the small-motion premises every junction gets its true successor for any numbering and any storage order (assignAll_small_motion_relabel_perm). "
+        "Per run: every step's mapping dictionary and multi-frame tracking queries compared exactly with the model on the coordinates "
         "the code sees (centre-of-mass shifts replayed and verified), and the property's clauses asserted on steps whose premises are measured to hold.",
    design_ref="DESIGN.md §7 C12",
    technique="Lean 4 theorems over Rat model of the tracking algorithm + exact differential check against TimeSeries",
@@ -129,7 +131,10 @@ CHECKS = {
         "a row is +-(p_a - p_b); joint flip of interface direction and defining cell orientation, and swapping the two cells, negate both sides "
         "of the equation; bordered normal equations (and the multiplier-free form: constant gradient + zero sum, with slack) give the zero-sum "
         "least-squares minimiser; linearity in the tensions; connected interface graph => unique; zero re-insertion puts 0 exactly at the dropped "
-        "cells and keeps the others in order. Per run: curvature and the pressure system compared with the model (rows exactly), the solution "
+        "cells and keeps the others in order. The assembly itself is in the model (Mesh.pressureSystem, Props/C04system.lean): one equation "
+        "s(p_a - p_b) = tension x turning per internal interface with two distinct own cells, linear in the tensions, a column is dropped exactly when "
+        "its cell touches no internal interface, unchanged by vertex renumbering and dictionary order of vertices / mesh edges, and on connected tissues "
+        "the zero-sum solution of the reduced system is unique. Per run: curvature and the pressure system compared with the model (rows exactly), the solution "
         "certified in exact arithmetic, rows oriented against the geometry, independent constrained solve, zero sum, linearity, zeros. NOT proved "
         "(numerical clauses, checked per run only): '(n-2)/(n-1) theta within 3 %' and 'correlation >= 0.9 with analytic Young-Laplace pressures'.",
    design_ref="DESIGN.md §7 C04",
